@@ -107,7 +107,19 @@ class SStr(Sym):
 
     def split(self, sep=None, maxsplit=-1):
         if sep is None:
-            raise NotImplementedError("whitespace split")
+            if maxsplit >= 0:
+                raise NotImplementedError("whitespace split with maxsplit")
+            parts, cur = [], []
+            for ch in self.c:
+                if self._is_ws(ch):          # decided per character (forks on a symbolic one)
+                    if cur:
+                        parts.append(mk(cur))
+                    cur = []
+                else:
+                    cur.append(ch)
+            if cur:
+                parts.append(mk(cur))
+            return parts
         idx = self._positions(sep)
         if maxsplit >= 0:
             idx = idx[:maxsplit]
